@@ -100,3 +100,106 @@ Definition rfc_wbits (v : N) : option (N * N) :=
   if N.testbit v 7 then None else
   let w := N.land (N.shiftr v 8) 63 in
   if (10 <=? w) && (w <=? 30) then Some (w, 14) else None.
+
+(* ------------------------------------------------------------------ C03: what concatenation means, bit by bit *)
+(* Bits are least-significant first within a byte (RFC 7932 section 1.5.2). *)
+Fixpoint byte_bits (n : nat) (b : N) : list bool :=
+  match n with O => [] | S n' => N.odd b :: byte_bits n' (N.div2 b) end.
+Fixpoint bits_of_bytes (l : list N) : list bool :=
+  match l with [] => [] | b :: t => byte_bits 8 b ++ bits_of_bytes t end.
+Fixpoint bits_val (l : list bool) : N :=
+  match l with [] => 0 | b :: t => (if b then 1 else 0) + 2 * bits_val t end.
+Fixpoint bytes_of_bits (fuel : nat) (l : list bool) : list N :=
+  match fuel with
+  | O => []
+  | S f => match l with [] => [] | _ => bits_val (firstn 8 l) :: bytes_of_bits f (skipn 8 l) end
+  end.
+Definition pack (l : list bool) : list N := bytes_of_bits (S (length l)) l.
+
+(* RFC 7932 9.1 encoder side: the WBITS field for a window (large-window form above 24) *)
+Definition wbits_field (w : N) : list bool :=
+  if w =? 16 then [false]
+  else if (18 <=? w) && (w <=? 24) then byte_bits 4 (1 + 2 * (w - 17))
+  else if w =? 17 then byte_bits 7 1
+  else if (10 <=? w) && (w <=? 15) then byte_bits 7 (1 + 16 * (w - 8))
+  else byte_bits 8 17 ++ byte_bits 6 w.
+
+(* drop the final empty meta-block (ISLAST = 1, ISLASTEMPTY = 1) and the zero padding after it;
+   the stream must end in a non-zero byte whose top set bit and the bit before it are the marker *)
+Fixpoint strip_zeros (r : list bool) : list bool :=     (* r = reversed bits *)
+  match r with false :: t => strip_zeros t | _ => r end.
+Definition strip_end_marker (bits : list bool) : option (list bool) :=
+  match rev bits with
+  | [] => None
+  | r =>
+    if negb (existsb (fun b => b) (firstn 8 r)) then None else       (* last byte is zero *)
+    match strip_zeros r with
+    | true :: true :: t => Some (rev t)
+    | _ => None
+    end
+  end.
+
+(* length in bits of the first meta-block header (after WBITS) when it is one the concatenator
+   may shift: ISLAST = 0 and either metadata (reserved bit 0) or uncompressed *)
+Definition first_header_len (h : list bool) : option N :=
+  match h with
+  | false :: m0 :: m1 :: rest =>
+    if m0 && m1 then
+      match rest with
+      | false :: k0 :: k1 :: _ => Some (6 + 8 * bits_val [k0; k1])
+      | _ => None
+      end
+    else
+      let nib := 4 + bits_val [m0; m1] in
+      if nth (N.to_nat (4 * nib)) rest false then Some (3 + 4 * nib + 1) else None
+  | _ => None
+  end.
+
+Definition LOOKAHEAD : N := 5.
+
+(* acc = (window of the first processed member or the override, output bits so far without end marker) *)
+Definition add_member (acc : option (N * list bool)) (m : list N) : option (option (N * list bool)) :=
+  if lenN m <? LOOKAHEAD then Some acc else                         (* necessarily an empty stream: skipped *)
+  match rfc_wbits (byte_at m 0 + 256 * byte_at m 1) with
+  | None => None
+  | Some (lgwin, wlen) =>
+    match strip_end_marker (bits_of_bytes m) with
+    | None => None
+    | Some body =>
+      match acc with
+      | None => Some (Some (lgwin, body))
+      | Some (w0, prev) =>
+        if w0 <? lgwin then None else
+        match first_header_len (skipn (N.to_nat wlen) (bits_of_bytes (takeN 6 m))) with
+        | None => None
+        | Some hlen =>
+          let src_bytes := (wlen + hlen + 7) / 8 in
+          if LOOKAHEAD <? src_bytes then None else
+          let hdr := firstn (N.to_nat hlen) (skipn (N.to_nat wlen) body) in
+          let mid := prev ++ hdr in
+          let pad := repeat false (N.to_nat ((8 - (N.of_nat (length mid)) mod 8) mod 8)) in
+          Some (Some (w0, mid ++ pad ++ skipn (N.to_nat (8 * src_bytes)) body))
+        end
+      end
+    end
+  end.
+
+Fixpoint add_members (acc : option (N * list bool)) (ms : list (list N)) : option (option (N * list bool)) :=
+  match ms with
+  | [] => Some acc
+  | m :: t => match add_member acc m with None => None | Some acc' => add_members acc' t end
+  end.
+
+(* override = Some w for new_with_window_size(w).  None = the specification does not apply
+   (a member is not of the appendable/catable shape, windows grow, header too long) *)
+Definition concat_spec (override : option N) (ms : list (list N)) : option (list N) :=
+  let acc0 := match override with None => None | Some w => Some (w, wbits_field w) end in
+  match add_members acc0 ms with
+  | None => None
+  | Some None => Some [59]                                           (* nothing but empty streams: ";" *)
+  | Some (Some (_, bits)) => Some (pack (bits ++ [true; true]))
+  end.
+
+(* the invariant as a proposition *)
+Definition Inv (s : BroCatli) : Prop := invb s = true.
+Definition Started (s : BroCatli) : Prop := startedb s = true.
